@@ -407,9 +407,15 @@ func TestVerifC06Flow(t *testing.T) {
 		}
 		kind := "dial_failure.valid_flight"
 		if g.r.Chance(0.5) { // an Initial-shaped datagram that does not authenticate, retransmitted
-			bad := append([]byte(nil), qc.datagrams[0]...)
-			bad[len(bad)-1] ^= 0x55
-			qc = &c06QuicCase{datagrams: [][]byte{bad, bad, bad}[:g.r.Range(2, 3)]}
+			// (a retransmitted Initial is a new packet: same connection ids, different bytes)
+			var bads [][]byte
+			for k := g.r.Range(2, 3); k > 0; k-- {
+				bad := append([]byte(nil), qc.datagrams[0]...)
+				bad[len(bad)-1] ^= 0x55
+				bad[len(bad)-2] = byte(k)
+				bads = append(bads, bad)
+			}
+			qc = &c06QuicCase{datagrams: bads}
 			kind = "dial_failure.undecryptable_retransmitted"
 		} else if g.r.Chance(0.5) {
 			qc.datagrams = append(qc.datagrams, qc.datagrams[0])
